@@ -5,6 +5,7 @@ import (
 	"go/ast"
 	"go/token"
 	"go/types"
+	"regexp"
 	"strings"
 
 	"golang.org/x/tools/go/packages"
@@ -484,7 +485,9 @@ func ruleDUP(c *Ctx) []Obligation {
 					continue
 				}
 				// find the guarding presence test among the preceding statements of the same list
-				var guard *ast.IfStmt
+				var guard, weakGuard *ast.IfStmt
+				var weakExtra ast.Expr
+				weakPrev := ""
 				for j := i - 1; j >= 0; j-- {
 					is, ok := list[j].(*ast.IfStmt)
 					if !ok {
@@ -502,15 +505,52 @@ func ruleDUP(c *Ctx) []Obligation {
 						guard = is
 						break
 					}
+					// `ok && EXTRA`: the error is raised only under EXTRA
+					if be, ok := unparen(is.Cond).(*ast.BinaryExpr); ok && be.Op == token.LAND && exprString(be.X) == exprString(a.Lhs[1]) && returnsError(info, is.Body.List) {
+						weakGuard, weakExtra, weakPrev = is, be.Y, exprString(a.Lhs[0])
+					}
+				}
+				// canonical description of the redefinitions that are let through; it is part of the
+				// construct key, so that a recorded finding names one specific exception and any
+				// other exception is a different construct
+				norm := func(e string, prev string) string {
+					if prev != "" && prev != "_" {
+						e = regexp.MustCompile(`\b`+regexp.QuoteMeta(prev)+`\b`).ReplaceAllString(e, "$$prev")
+					}
+					if len(as.Rhs) == 1 {
+						if id, ok := unparen(as.Rhs[0]).(*ast.Ident); ok {
+							e = regexp.MustCompile(`\b`+regexp.QuoteMeta(id.Name)+`\b`).ReplaceAllString(e, "$$new")
+						}
+					}
+					return e
 				}
 				switch {
+				case guard == nil && weakGuard != nil:
+					o.Key += " [redefinition accepted unless " + norm(exprString(weakExtra), weakPrev) + "]"
+					o.Verdict = VIOL
+					o.Pos = c.pos(weakGuard.Pos())
+					o.Detail = fmt.Sprintf("a name that is already present is rejected only when %s holds: every other redefinition is accepted and overwrites the earlier definition", exprString(weakExtra))
 				case guard == nil:
 					o.Verdict = VIOL
 					o.Detail = fmt.Sprintf("%s is stored without a preceding presence test: a second definition of the same name silently replaces the first", exprString(ix))
 				case !returnsError(info, guard.Body.List):
+					exc := "an unrecognised condition"
+					if len(guard.Body.List) == 1 {
+						if inner, ok := guard.Body.List[0].(*ast.IfStmt); ok && inner.Else == nil && returnsError(info, inner.Body.List) {
+							prev := exprString(guard.Init.(*ast.AssignStmt).Lhs[0])
+							if ia, ok := inner.Init.(*ast.AssignStmt); ok && len(ia.Rhs) == 1 && len(ia.Lhs) == 2 && strings.ReplaceAll(exprString(inner.Cond), " ", "") == "!"+exprString(ia.Lhs[1]) {
+								if ta, ok := unparen(ia.Rhs[0]).(*ast.TypeAssertExpr); ok && ta.Type != nil {
+									exc = norm(exprString(ta.X), prev) + " is " + exprString(ta.Type)
+								}
+							} else if inner.Init == nil {
+								exc = "!(" + norm(exprString(inner.Cond), prev) + ")"
+							}
+						}
+					}
+					o.Key += " [redefinition accepted when " + exc + "]"
 					o.Verdict = VIOL
 					o.Pos = c.pos(guard.Pos())
-					o.Detail = "the presence test does not return an error on every path of its hit branch: some redefinitions are accepted and overwrite the earlier definition"
+					o.Detail = "the presence test does not return an error on every path of its hit branch: a redefinition is accepted, and overwrites the earlier definition, when " + exc
 				default:
 					o.Detail = "present → error, else store"
 				}
